@@ -15,7 +15,7 @@ CHECKS = {
     "C03": ("fault_enumeration", "every enumerated input through format_code, every rule and sub/subn must keep its validity level; every (file content, injected formatter result, file name, safe) combination of format_file is compared with a reference model of the write guard with all write-mode opens logged",
             "trusted: compile()/ast.parse as validity oracle; the injected-result menu stands for 'any formatter output'",
             "exhaustive input enumeration + fault injection at the format_code seam of format_file", "3 C03"),
-    "C04": ("exploration", "format_code (and every rule on parsable input) is called on every enumerated input string - corpora, adversarial constant expressions, end-of-file placements, all prefixes of each construct, scaling families - and must return a str without raising within 60 s; invalid input must come back equal up to whitespace",
+    "C04": ("exploration", "format_code (and every rule on parsable input) is called on every enumerated input string - corpora, adversarial constant expressions, end-of-file placements, all prefixes of each construct, degenerate calls, scaling families, astronomically large constants and long blank runs (these two in a hard-killed child process) - and must return a str without raising within 300 CPU seconds (20 in the child); invalid input must come back equal up to whitespace",
             "trusted: nothing beyond the harness; bounded to the enumerated inputs",
             "bounded exhaustive input enumeration (incl. all prefixes) with a totality oracle", "3 C04"),
     "C10": ("model_checking", "every schedule (subset of 15 candidate rewrites up to size 3/4, every yield order, transaction numbering and rule-group split) is executed on the real scheduler and on fix()/chain() and compared with a reference model of the documented rules",
